@@ -741,6 +741,23 @@ func backSlice(v ssa.Value) map[ssa.Value]bool {
 				}
 			}
 		}
+		// an array/slice backing store built locally (variadic packs, slice literals): include the
+		// values stored into its elements
+		if a, ok := x.(*ssa.Alloc); ok {
+			if _, isArr := a.Type().Underlying().(*types.Pointer).Elem().Underlying().(*types.Array); isArr {
+				if refs := a.Referrers(); refs != nil {
+					for _, r := range *refs {
+						if ia, ok := r.(*ssa.IndexAddr); ok && ia.Referrers() != nil {
+							for _, rr := range *ia.Referrers() {
+								if s, ok := rr.(*ssa.Store); ok && s.Addr == ia {
+									walk(s.Val)
+								}
+							}
+						}
+					}
+				}
+			}
+		}
 		// loads from an Alloc (or a field of it): include every value stored into the Alloc or
 		// into any of its fields
 		if u, ok := x.(*ssa.UnOp); ok && u.Op == token.MUL {
